@@ -217,8 +217,16 @@ def ff_rule(repo, res, rule="FF"):
     res.check(ok, rule, f"{rule}:InvalidCommandName", f"span of the command name: {A.show(sites[0][0])[:100] if sites else None}", f.loc() if f else "")
     f = repo.fn("parse::Grammar::iter_call_variants")
     if f is not None:
-        txt = " ".join(repo.text(f.file, f.body).split())
-        res.check("Some((*name, *name_span, *expr))" in txt, rule, f"{rule}:iter_call_variants", "yields (name, name_span, expr) of each call variant", f.loc())
+        # some 3-tuple whose components are the bindings of CallVariant's fields name, name_span, expr (in that order), whatever the bindings are called
+        e5 = A.collect_envs(f)
+        ok5 = False
+        for t in A.walk(f.body):
+            if t["k"] == "Tuple" and len(t["elems"]) == 3:
+                ps = [A.resolve(x, e5.get(id(t))) for x in t["elems"]]
+                ps = [q[1] if q[0] in ("deref", "ref") else q for q in ps]
+                if all(q[0] == "bind" and P.last(q[1]) == "CallVariant" for q in ps) and [q[2] for q in ps] == ["name", "name_span", "expr"]:
+                    ok5 = True
+        res.check(ok5, rule, f"{rule}:iter_call_variants", "yields (name, name_span, expr) of each call variant", f.loc())
     f, sites = arg_provs("check::do_check_subword_spaces", "SubwordSpaces")
     ok = bool(sites) and len(sites[0]) == 3
     if ok:
